@@ -123,7 +123,7 @@ func init() {
 		Technique:   techniqueText,
 		Explanation: "Bounded symbolic execution of the dialer health state machine against a threshold monitor.",
 		Bounds:      map[string]string{"quick": "thresholds: 7 network types x arbitrary initial consecutive-failure counts x 3 events of 7 kinds; shared node: 6 types x 3 events of 4 kinds, 2 groups; suppression: nested scopes, 3 muted failures then forced; snapshot: 6 arbitrary alive flags and counts", "thorough": "thresholds with 4 events"},
-		Outside:     []string{"proxy-address escalation (three death transitions): recordProxyFailure is not driven here", "probe I/O, recovery back-off timers", "EnsureReloadSelectionFloor (group level)"},
+		Outside:     []string{"proxy-address escalation beyond the escalation harness (3 health domains of one node, 4 events quick / 5 thorough; the 10-minute window does not expire in it)", "probe I/O, recovery back-off timers", "EnsureReloadSelectionFloor (group level)"},
 		Assumptions: []string{"NotifyHealthCheckResult is a no-op", "latency of a successful probe 1ns..5s"},
 		QuickBudget: 8 * time.Minute, ThoroughBudget: 20 * time.Minute,
 	}
@@ -151,7 +151,7 @@ func init() {
 		Technique: techniqueText,
 		Explanation: "Bounded symbolic execution of rule lowering, compilation and the userspace matcher against a first-match specification.",
 		Bounds:  map[string]string{"quick": "value_parsers: written values -> typed values (process names of 1/15/16/17/20 symbolic bytes, port ranges, l4proto / ipversion words, MAC, prefixes); key_groups: domain(full, suffix) && {dport | l4proto} in either written order; shared_set: sip(P) -> x ; ip(P) -> y over one de-duplicated prefix set P (3 prefix forms), either negated; one rule + fallback: each of the 10 condition kinds, 1-2 values (domain: 1-2 key groups), negation symbolic, 4 outbound forms incl. must_rules; two rules + fallback: port && {ip | domain | mac} (1-2 values) then sport, first rule must_rules or a marked group; prefix forms v4/24, v6/64, v4/0; packet fully symbolic (both address forms for the destination, with and without a domain)", "thorough": "all 10 kinds in every position of the two-rule shape, 7 outbound forms, prefix forms /0 /24 /32 /64 /128"},
-		Outside: []string{"more than two rules / two conditions per rule (the per-match-set loop state is the same for any length)", "string parsers of values", "config.patchMustOutbound"},
+		Outside: []string{"more than two rules / two conditions per rule (the per-match-set loop state is the same for any length)", "text-to-value parsing inside the matcher harnesses (the parsers are checked on their own in value_parsers and bypassed elsewhere)", "config.patchMustOutbound"},
 		Assumptions: []string{"K-LPM (C12)", "K-DOM (C11): domain-set hits are free booleans", "logger is a no-op"},
 		QuickBudget: 8 * time.Minute, ThoroughBudget: 25 * time.Minute,
 	}
@@ -208,7 +208,7 @@ func init() {
 		Technique: techniqueText,
 		Explanation: "Bounded symbolic execution of the TLS / HTTP / QUIC-CRYPTO sniffers and the stream sniffer's read, deadline and replay path.",
 		Bounds: map[string]string{"quick": "arbitrary ClientHello: 49-51 symbolic bytes (type/version steered); well-formed hello: names 1-3 bytes over {a,B,-,1}, session id 0/32, 3 extension orders, 1 suite; chunked: one hello shape, cut points {5,6,44,len-1,len} x2; passthrough: 6 symbolic bytes (first byte TLS / G / P / 0), tail in time or late; HTTP: 4 methods x 3 Host positions x 4 key cases x 3 values; QUIC frames: 3 cut points, 6 orders, resend, 1-2 datagrams; QUIC arbitrary: frame A 41 symbolic bytes at offset 0, frame B 4/8 bytes at offset 0/39/41; QUIC datagram: 35 bytes, 2-byte DCID, symbolic header-protection mask", "thorough": "names <=4, session id 0/1/32, 1-2 suites, passthrough 6/9 free bytes, 6 QUIC cut points, QUIC arbitrary offsets A{0,1,38} x B{0,39,41,42,45,63}"},
-		Outside: []string{"QUIC header protection / AEAD decryption (crypto not encoded)", "hellos longer than the bounds, more than 3 extensions", "the async read path used only for readers without deadlines", "UDP datagram replay order in control/udp.go", "HTTP heads split over reads (the statement only claims one read)"},
+		Outside: []string{"QUIC header protection / AEAD decryption (crypto not encoded)", "hellos longer than the bounds (the longest modelled one is 4.3 KiB, in tls_chunked), more than 3 extensions", "the async read path used only for readers without deadlines", "UDP datagram replay order in control/udp.go", "HTTP heads split over reads (the statement only claims one read)"},
 		Assumptions: []string{"model socket c06Conn: chunks arrive as given; a read beyond them returns a net.Error with Timeout()=true; SetReadDeadline always succeeds", "time.Now abstracted to an arbitrary instant"},
 		QuickBudget: 10 * time.Minute, ThoroughBudget: 20 * time.Minute,
 	}
@@ -234,7 +234,7 @@ func init() {
 	}
 	checks["C13"] = &CheckDef{
 		Pkgs: []string{"./control"}, Splice: true,
-		Harness: []string{"control:Verif_C13_taskpool", "control:Verif_C13_taskpool_recycle", "control:Verif_C13_tuples", "control:Verif_C13_tuples_handover", "control:Verif_C13_overflow", "control:Verif_C13_endpoint_pool", "control:Verif_C13_endpoint_cooldown", "control:Verif_C13_endpoint_invalidation", "control:Verif_C13_endpoint_adoption"},
+		Harness: []string{"control:Verif_C13_taskpool", "control:Verif_C13_taskpool_recycle", "control:Verif_C13_tuples", "control:Verif_C13_tuples_handover", "control:Verif_C13_overflow", "control:Verif_C13_endpoint_pool", "control:Verif_C13_endpoint_cooldown", "control:Verif_C13_endpoint_cooldown_concurrent", "control:Verif_C13_endpoint_invalidation", "control:Verif_C13_endpoint_adoption"},
 		Stubs: map[string]string{"(*github.com/daeuniverse/dae/control.UdpEndpoint).prewarmResponseConn": "noop", "github.com/daeuniverse/dae/control.reportUdpEndpointDialCreateFailure": "noop"},
 		MaxIter: 1000,
 		Level:   "other",
@@ -242,7 +242,7 @@ func init() {
 		LevelNote: "Trusted: go/ssa, executor and its cooperative thread model (goroutines switch only at synchronisation operations: data-race-free code assumed; an unbuffered channel is a one-slot buffer), z3. Endpoint pool: the reply path to the client (Anyfrom sockets; prewarmResponseConn is stubbed), dialer health reporting (stubbed), the janitor, health invalidation epochs and generation adoption are not covered.",
 		Technique: techniqueText,
 		Explanation: "Bounded schedule exploration (symbolic schedules, bounded preemptions) of the UDP task pool and the conn-state tuple tracker.",
-		Bounds: map[string]string{"quick": "task pool: 2 producers, 3 tasks, one or two flow keys, 1 preemption, each timer fires <=2 times; overflow: bursts of 1/128/129/257/430 tasks for one flow before the worker runs, 0-2 later tasks (deterministic schedule); endpoint pool: 2 concurrent GetOrCreate on one key (all interleavings at blocking points, the dial yields), then reuse, write error, re-dial, double close; cool-down on an arbitrary clock; tuples: 3 owners over 2 tuples (1 preemption), hand-over of 1 tuple between two generations with a concurrent close", "thorough": "2 preemptions for the task pool"},
+		Bounds: map[string]string{"quick": "task pool: 2 producers, 3 tasks, one or two flow keys, 1 preemption, each timer fires <=2 times; overflow: bursts of 1/128/129/257/430 tasks for one flow before the worker runs, 0-2 later tasks (deterministic schedule); endpoint pool: 2 concurrent GetOrCreate on one key (all interleavings at blocking points, the dial yields), then reuse, write error, re-dial, double close; cool-down on an arbitrary clock, sequentially and with 2 concurrent first packets whose dial fails (clock kept inside the cool-down); tuples: 3 owners over 2 tuples (1 preemption), hand-over of 1 tuple between two generations with a concurrent close", "thorough": "2 preemptions for the task pool"},
 		Outside: []string{"UdpEndpointPool janitor, drain-tracker hand-over in adoptGeneration, Reset/Close of the pool, reply loop to the client", "overflow FIFO interleaved with concurrent producers (the burst harness fills it before the worker runs)", "task panics", "pool Close/Reset racing with producers", "data races on non-atomic fields"},
 		Assumptions: []string{"goroutines switch only at synchronisation operations", "BpfMapBatchDelete replaced by a shadow table", "model dialer / packet socket; prewarmResponseConn and reportUdpEndpointDialCreateFailure stubbed", "the kernel re-creates a flow entry once an owner has retained its tuple"},
 		QuickBudget: 10 * time.Minute, ThoroughBudget: 20 * time.Minute,
